@@ -134,6 +134,13 @@ pub fn program_corpus(tier: Tier) -> Vec<(String, &'static str)> {
             "#T(n<u64>) -> :A((n, n))\n  :A((p, q)) -> :B(p + q)\n  :B(r) => r.",
             "r := #T(1u64, 2u64)", "r := #T([1u64 2u64])", "r := #T(x) + 1u64", "#T(5u64)"] { push(s.to_string(), "definition-large", &mut v); }
   // operators in every spelling
+  // every operator spelling the expression grammar reads (src/syntax/src/expressions.rs), alone, with a literal operand and in a chain
+  for op in ["+", "-", "*", "×", "/", "÷", "%", "^", "**", "\\", "·", "•", "⨯", "!=", "¬=", "≠", "==", "⩵", "=!=", "=¬=", "=:=", "≡", ">", "<", ">=", "≥", "<=", "≤", "||", "∨", "⋁", "&&", "∧", "⋀", "^^", "⊕", "⊻",
+    "⋈", "⟕", "⟖", "⟗", "⋉", "▷", "∪", "∩", "∖", "∁", "⊆", "⊇", "⊊", "⊂", "⊋", "⊃", "∈", "∉", "Δ"] {
+    push(format!("x := a {} b", op), "operator-spelling-all", &mut v);
+    push(format!("x := [1 2] {} (b {} c)", op, op), "operator-spelling-all", &mut v);
+    push(format!("x := a {} b + 1", op), "operator-spelling-all", &mut v);
+  }
   for (a, b) in [("!=", "≠"), ("!=", "¬="), ("<=", "≤"), (">=", "≥"), ("==", "⩵"), ("&&", "∧"), ("||", "∨"), ("*", "×"), ("/", "÷"), ("!", "¬"), ("⊕", "xor"), ("=>", "⇒"), ("->", "→"), ("<-", "←"), ("∈", "in"), ("**", "⋆")] { push(format!("x := a {} b", a), "operator-spelling", &mut v); push(format!("x := a {} b", b), "operator-spelling", &mut v); let _ = (a, b); }
   for s in ["x := !a", "x := ¬a", "x := -a'", "x := !a && !b", "x := -(-a)", "x := - a", "x := a - -b", "x := a+b", "x := a*b+c", "x := a ^ -b", "x := (-a) ^ b", "x := a ^ b ^ c", "x := (a ^ b) ^ c", "x := a / b / c", "x := a / (b / c)", "x := a - b - c", "x := a - (b - c)", "x := a < b == c", "x := (a < b) == (c > d)", "x := !(a < b)", "x := a && (b || c)", "x := (a && b) || c", "x := a ∪ b ∩ c", "x := (a ∪ b) ∩ c", "x := a ∈ b ∪ c", "x := 2 * (3 + 4) * 5", "x := ((a))", "x := (((a + b)))", "x := (a)(b)"] { push(s.to_string(), "operator-layout", &mut v); }
   // more Mechdown: inline elements, nested lists, blocks in sequence, documents
